@@ -119,8 +119,6 @@ func (r *Recorder) Trailers() http.Header {
 	return t
 }
 
-// NoHijack wraps a Recorder hiding the Hijacker interface (for non-WebSocket runs nothing changes).
-type NoFlush struct{ http.ResponseWriter }
 
 // Script describes how a byte stream is handed out to Read calls.
 type Script struct {
